@@ -46,8 +46,13 @@ func runC09(c *Ctx) {
 	for _, site := range c.Sites("st:Conn.didAuth=true") {
 		c.obHolds("didAuth=true", site, `invoke:Server.Next#1 == true`)
 		c.obHolds("didAuth=true", site, `invoke:Server.Next#2 == nil`)
-		seen := s.SeenBefore(site)
-		R.Ob(c.siteKey(site, "235 before didAuth"), c.P.InstrPos(site), seen["reply:235"], "didAuth set on a path that did not send 235")
+	}
+	for _, site := range c.Sites("st:Conn.didAuth=true") {
+		c.obAccompanied("didAuth only with 235", site.Parent(), func(in ssa.Instruction) bool { return in == site }, []string{"reply:235"}, "didAuth set on a path that does not send 235")
+	}
+	if f := c.A.Func("(*Conn).handleAuth"); f != nil {
+		// ... and every success is recorded: otherwise a second AUTH is not answered 503
+		c.obAccompanied("235 records the authentication", f, c.direct("reply:235"), []string{"st:Conn.didAuth=true"}, "a successful AUTH does not set didAuth: AUTH can succeed again in the same session")
 	}
 	for _, site := range c.Sites("reply:235") {
 		c.obHolds("reply 235", site, `invoke:Server.Next#1 == true`)
